@@ -185,6 +185,7 @@ pub fn c03_spec(check: &str, spec: &[Entry], pats: &[P], st: &mut Stats) -> Vec<
     if collision || levels >= 3 {
         st.nontrivial(&format!("{:?}", case));
     }
+    st.add("files_created_as_hard_links", tree::HARD_LINKS.swap(0, std::sync::atomic::Ordering::Relaxed));
     st.mark("tree_depths", &format!("{}", tree::depth(spec)));
     let actual = match analyze_dir_all(&root, pats) {
         Ok(a) => a,
@@ -192,6 +193,29 @@ pub fn c03_spec(check: &str, spec: &[Entry], pats: &[P], st: &mut Stats) -> Vec<
     };
     if actual == expected && expected != required {
         st.count("trees_where_symlinked_directories_were_followed");
+    }
+    // whether a symbolically linked directory counts as "beneath" is one decision, not one per
+    // category or per pattern: a file reached only through such a link (and whose name is unique in
+    // the tree) has either all of its findings in the result or none
+    if expected != required {
+        let mut all_files = Vec::new();
+        tree::eligible_files(spec, "", &mut all_files);
+        let mut direct_files = Vec::new();
+        tree::eligible_files(&tree::strip_links(spec), "", &mut direct_files);
+        let direct: BTreeSet<&String> = direct_files.iter().map(|(rel, _, _)| rel).collect();
+        for (rel, name, _) in all_files.iter().filter(|(rel, _, _)| !direct.contains(rel)) {
+            if all_files.iter().filter(|(_, n, _)| n == name).count() != 1 {
+                continue;
+            }
+            let of_file = |m: &Multi| -> Multi { m.iter().filter(|(k, _)| &k.1 == name).map(|(k, v)| (k.clone(), *v)).collect() };
+            let (e, a) = (of_file(&expected), of_file(&actual));
+            if !a.is_empty() && a != e {
+                st.count("link_only_files_checked");
+                let missing: Vec<&String> = e.keys().filter(|k| !a.contains_key(*k)).map(|k| &k.0).take(4).collect();
+                return vec![Violation::new(check, "symlinked-directory:followed-for-some-patterns-only", format!("{rel} is reached only through a symbolic link to a directory; the result holds some of its findings but not those of {:?}", missing), case)];
+            }
+            st.count("link_only_files_checked");
+        }
     }
     if let Some((sig, what)) = diff2(&required, &expected, &actual) {
         let cls = if collision { "after-earlier-file" } else { "plain" };
